@@ -56,9 +56,10 @@ structure ModLocality where
   moduleState : List String
   deriving Repr, DecidableEq
 
-/-- FURB120 fills in `Argument.initializer` on typeshed definitions (inject_stdlib_defaults); no other
-    check reads `initializer`, and the values written do not depend on the file being checked. -/
-def nodeWriteAllow : List String := ["refurb.checks.function.use_implicit_default"]
+/-- No check may write to a tree node.  (Until fix a45cc72 FURB120 filled in `Argument.initializer` on typeshed
+    definitions and was allow-listed here on the argument that "the values written do not depend on the file being
+    checked" — they did not, but WHETHER they had been written yet did: the report depended on the order of the files.) -/
+def nodeWriteAllow : List String := []
 
 /-- FURB120 compares `len(errors)` before and after its own inner loop: a delta, insensitive to what
     other checks appended earlier. -/
